@@ -20,7 +20,47 @@ LEVEL = 'proof'
 DRIVER = 'drv_c07'
 HARNESS = 'c07.cpp'
 SOURCES = ['src/regression/leastsquares/LeastSquares.cpp']
-PROOF_MODULES = ['RomeaProofs.Properties.C07']
+PROOF_MODULES = ['RomeaProofs.Properties.C07', 'RomeaProofs.Bridge.C07', 'RomeaProofs.Bridge.C07Cor']
+
+
+# ------------------------------------------------------------------ tie no. 2: the member functions themselves, translated on every run
+def _bridge_functions(t, s):
+    rec = 'LeastSquares<%s>' % t
+    lst = [('LeastSquares::LeastSquares', 'void ()', '_default'), ('LeastSquares::LeastSquares', 'void (const size_t &)', '_est'),
+           ('LeastSquares::LeastSquares', 'const size_t &, const size_t &', '_estData'),
+           ('LeastSquares::setDataSize', None, ''), ('LeastSquares::setEstimateSize', None, ''),
+           ('LeastSquares::setPreconditionner', 'Vector &)', '_Ab'), ('LeastSquares::setPreconditionner', 'Matrix &)', '_A'),
+           ('LeastSquares::computeJTJ_', None, ''), ('LeastSquares::computeJTY_', None, ''), ('LeastSquares::weightJAndY_', None, ''),
+           ('LeastSquares::estimateUsingSVD', None, ''), ('LeastSquares::estimateUsingCholeskyDecomposition', None, ''),
+           ('LeastSquares::weightedEstimate', None, ''), ('LeastSquares::computeEstimateCovariance', None, '')]
+    out = []
+    for cxx, sig, suf in lst:
+        d = {'cxx': cxx, 'record': rec, 'suffix': suf + s}
+        if sig:
+            d['sig'] = sig
+        out.append(d)
+    return out
+
+
+BRIDGE_SPEC = {
+    'id': 'C07',
+    'sources': ['src/regression/leastsquares/LeastSquares.cpp'],
+    'filter': 'LeastSquares',      # one clang pass, restricted to the class (its two explicit instantiations): ~8 s of the ~11 s
+    # dynamic-size Eigen members are aggregates (coefficients `m` as a total function of the indices, `rows`, `cols`); `resize` leaves
+    # uninitialised coefficients = an uninterpreted function `resize_<member>` (the model's junkJ / junkY), `A.ldlt().solve(B)` is the
+    # uninterpreted `ldlt_solve`, products / `dot` are explicit sums in index order with a leading zero (the model's `sumTo`)
+    'dyn_sizes': True,
+    # the local `Eigen::JacobiSVD<Matrix> svd(JtJ_, ComputeThinU | ComputeThinV)` is the record of its constructor arguments; its three
+    # accessors are uninterpreted functions of them (the model's `Env.svd`), shapes as Eigen documents them for thin U / V
+    'oracle_classes': {'JacobiSVD': {'methods': {'singularValues': ['(min {r0} {c0})'], 'matrixU': ['{r0}', '(min {r0} {c0})'],
+                                                 'matrixV': ['{c0}', '(min {r0} {c0})']}}},
+    'functions': _bridge_functions('double', '_d') + _bridge_functions('float', '_f'),
+}
+
+
+def regen(ctx):
+    import bridge
+    return bridge.regen_bridge(ctx, BRIDGE_SPEC)
 TRUSTED = ['Eigen JacobiSVD / LDLT are parameters of the model with stated contracts (IsSVD, IsLDLTInverse); the driver plugs in '
            'Lean Float implementations (cyclic Jacobi, LDL^T) and all solver outputs are compared within a cond^2-scaled tolerance',
            'the probe judges the C++ outputs against an independent Householder-QR solution computed in Python doubles']
